@@ -242,9 +242,90 @@ func (a *a25) skipFrameAdded(chain []a25frame, idx int) (lin, bool) {
 			recv = c.Call.Args[0] // chained field method returning its receiver
 			continue
 		}
-		return total, true // event created here (Logger.Debug(), newEvent…)
+		// event created here (Logger.Debug(), newEvent…), possibly through a private helper that
+		// already adjusted skipFrame on the event it returns (e.g. "debug event for the Print family")
+		if k, ok := a.retSkip(sc, 0); ok {
+			total = linAdd(total, linConst(k))
+		} else {
+			return linBad("the helper " + FnName(sc) + " returns events with differing skipFrame adjustments"), true
+		}
+		return total, true
 	}
 	return total, false
+}
+
+// retSkip: the constant a module function has added to Event.skipFrame of the event it returns
+// (0 for plain creators); all non-nil returns must agree.
+func (a *a25) retSkip(f *ssa.Function, depth int) (int64, bool) {
+	if f == nil || f.Blocks == nil || depth > 4 || !InModule(f) {
+		return 0, true
+	}
+	if f.Signature.Results().Len() != 1 || !typeIs(f.Signature.Results().At(0).Type(), modPath, "Event") {
+		return 0, true
+	}
+	var vals []int64
+	okAll := true
+	var walk func(v ssa.Value, acc int64, d int)
+	walk = func(v ssa.Value, acc int64, d int) {
+		if d > 12 {
+			okAll = false
+			return
+		}
+		if isNilConst(v) {
+			return
+		}
+		switch x := v.(type) {
+		case *ssa.Phi:
+			for _, e := range x.Edges {
+				walk(e, acc, d+1)
+			}
+			return
+		case *ssa.Call:
+			sc := staticCallee(&x.Call)
+			if sc == nil {
+				vals = append(vals, acc)
+				return
+			}
+			if a.addsToSkipFrame(sc) {
+				k, ok := constInt(x.Call.Args[1])
+				if !ok {
+					okAll = false
+					return
+				}
+				walk(x.Call.Args[0], acc+k, d+1)
+				return
+			}
+			if len(x.Call.Args) > 0 && typeIs(x.Call.Args[0].Type(), modPath, "Event") && typeIs(x.Type(), modPath, "Event") {
+				walk(x.Call.Args[0], acc, d+1)
+				return
+			}
+			k, ok := a.retSkip(sc, depth+1)
+			if !ok {
+				okAll = false
+				return
+			}
+			vals = append(vals, acc+k)
+			return
+		}
+		vals = append(vals, acc)
+	}
+	eachInstr(f, func(b *ssa.BasicBlock, i int, in ssa.Instruction) {
+		if ret, ok := in.(*ssa.Return); ok && len(ret.Results) == 1 {
+			walk(ret.Results[0], 0, 0)
+		}
+	})
+	if !okAll {
+		return 0, false
+	}
+	for _, v := range vals {
+		if v != vals[0] {
+			return 0, false
+		}
+	}
+	if len(vals) == 0 {
+		return 0, true
+	}
+	return vals[0], true
 }
 
 // addsToSkipFrame: the method's only effect on skipFrame is `e.skipFrame += param1`.
